@@ -825,6 +825,73 @@ def wildcard_witnesses(k: Kit, rule: str) -> None:
                   'never match', fi.loc(fi.node))
 
 
+def port_fallback(k: Kit, rule: str) -> None:
+    """SSHKnownHosts.match: the port-less fallback keeps what the
+    [host]:port lookup revoked."""
+    rep = k.rep
+    idx = k.idx
+    fi = k.func('known_hosts.SSHKnownHosts.match')
+    body = [st for st in fi.node.body if not (
+        isinstance(st, ast.Expr) and isinstance(st.value, ast.Constant))]
+    names = ('host_keys', 'ca_keys', 'revoked_keys', 'x509_certs',
+             'revoked_certs', 'x509_subjects', 'revoked_subjects')
+    bad = None
+    n = 0
+    for port in (None, 2222):
+        for trusted_at_port in (False, True):
+            n += 1
+
+            def on_call(nm, args, env, tp=trusted_at_port):
+                if nm == 'self._match':
+                    withport = len(args) >= 3 and args[2] is not None
+                    tag = 'P' if withport else 'N'
+                    res = []
+                    for i, x in enumerate(names):
+                        if withport and not tp and \
+                                not x.startswith('revoked'):
+                            res.append(())
+                        else:
+                            res.append((Obj(f'{tag}:{x}'),))
+                    return tuple(res)
+                return Obj('x')
+            try:
+                o = evaluate(idx, fi.module, body, {},
+                             {'host': 'h', 'addr': '1.2.3.4', 'port': port},
+                             on_call)
+            except NotEvaluable as exc:
+                rep.error(rule, key(fi, 'not-evaluable'), str(exc))
+                return
+            if o.kind != 'return' or not isinstance(o.value, tuple) or \
+                    len(o.value) != 7:
+                bad = bad or f'port={port}: result {o!r}'
+                continue
+            res = dict(zip(names, o.value))
+            tag = 'P' if port else 'N'
+            for x in names:
+                if not x.startswith('revoked'):
+                    continue
+                if port and Obj(f'P:{x}') not in tuple(res[x]):
+                    bad = bad or (
+                        f'port={port}, '
+                        f'{"" if trusted_at_port else "no "}trusted entry for '
+                        f'[host]:port: the {x} found by the [host]:port '
+                        f'lookup are dropped (result {res[x]!r}) - a key '
+                        'revoked for that port is accepted through the '
+                        'port-less entry')
+            if port and not trusted_at_port:
+                if Obj('N:host_keys') not in tuple(res['host_keys']):
+                    bad = bad or 'fallback to port-less entries missing'
+            if port and trusted_at_port:
+                if Obj('N:host_keys') in tuple(res['host_keys']):
+                    bad = bad or ('port-less entries used although '
+                                  '[host]:port entries exist')
+    rep.count('eval.known_hosts_fallback_states', n)
+    rep.check(bad is None, rule, key(fi, 'revoked survives the port fallback'),
+              f'{n} states: port-less fallback only without trusted '
+              '[host]:port entries, and the [host]:port revocations stay',
+              str(bad), fi.loc(fi.node))
+
+
 def r5(k: Kit) -> None:
     """Bracket escaping of host patterns; every line for a key is tried."""
     rep = k.rep
@@ -988,3 +1055,8 @@ def run(idx, rep, tier):
     r4(k)
     r4_cert_kind(k)
     r5(k)
+    rep.rule('C17.R6', 'SSHKnownHosts.match evaluated with a stubbed _match: '
+             'the lookup without port is used only when the [host]:port '
+             'lookup found no trusted entry, and the @revoked entries the '
+             '[host]:port lookup found are part of the result either way')
+    port_fallback(k, 'C17.R6')
